@@ -790,7 +790,8 @@ package modules
 //@   ghost var ot bool = false
 //@   ghost var front *list.Element = nil
 //@   at after (*List).Front ghost front = ret0
-//@   at store overtime ghost ot = !value
+//@   at store overtime ghost ot = asType(front.Value, *Task).overtime
+//@   at store overtime assert front != nil && value == !asType(front.Value, *Task).overtime
 //@   at call (*Task).runWithLocking assert ot && front != nil && arg0 == asType(front.Value, *Task)
 //@   at call (*Task).StartASAP assert !ot && front != nil && arg0 == asType(front.Value, *Task)
 //@   loop 0 invariant true
